@@ -112,7 +112,7 @@ def r1_pairing(chk: Check):
     chk.require(any(src(c) == "self.release()" for c in fn_calls(ex.node)), chk.fkey(ex, "exit releases"), "Lock.__exit__ must call release()", chk.loc(ex.module, ex.node))
     lock_level_protocol(chk)
     tl = tree.func("tokens", "CounterTokenLock._release")
-    chk.require(any(src(c) == "self.dependency.token.release(self.dependency)" for c in fn_calls(tl.node)), chk.fkey(tl, "token release"), "CounterTokenLock._release must release the token", chk.loc(tl.module, tl.node))
+    chk.require(any(src(c) in ("self.dependency.token.release(self.dependency)", "self.dependency._token.release(self.dependency)") for c in fn_calls(tl.node)), chk.fkey(tl, "token release"), "CounterTokenLock._release must release the token", chk.loc(tl.module, tl.node))
     # the Locks object enters with level 1 so that __exit__ releases: `with Locks() as locks` -> __enter__ -> acquire
     en = tree.func("locking", "Lock.__enter__")
     chk.require(any(src(c) == "self.acquire()" for c in fn_calls(en.node)), chk.fkey(en, "enter acquires"), "Lock.__enter__ must call acquire() (else __exit__ releases nothing)", chk.loc(en.module, en.node))
@@ -197,7 +197,13 @@ def r3_foreign_holdings_watched(chk: Check):
     dele = [x for x, c in g.call_nodes(lambda c: src(c) == "self.delete()")]
     chk.require(bool(dele) and g.must_pass(g.entry, g.exit, dele), chk.fkey(w, "watch ends with delete"), "the watcher thread must delete the token file on every path once the job process is gone", chk.loc(w.module, w.node))
     ww = tree.func("tokens", "TokenFile.watch")
-    chk.require(any("Thread(target=run).start()" in src(c) for c in fn_calls(ww.node)), chk.fkey(ww, "starts thread"), "watch() must start the watcher thread", chk.loc(ww.module, ww.node))
+    started = False
+    for c in fn_calls(ww.node):
+        if tail(c) == "start" and isinstance(c.func, ast.Attribute) and isinstance(c.func.value, ast.Call) and tail(c.func.value) == "Thread":
+            tg = [k.value for k in c.func.value.keywords if k.arg == "target"]
+            if tg and (dotted(tg[0]) or "").split(".")[-1] in (w.node.name, getattr(w, "written_qual", w.qual).split(".")[-1]):
+                started = True
+    chk.require(started, chk.fkey(ww, "starts thread"), "watch() must start the watcher thread", chk.loc(ww.module, ww.node))
     # no pid file under the job lock means the job is gone: the holding is reclaimed at once (no polling loop)
     pid = [n for n in g.live if n.kind == "test" and "pidpath.is_file()" in src(n.ast)]
     okp = bool(pid) and bool(dele)
@@ -381,7 +387,7 @@ def r5_wakeup_path(chk: Check):
     st = tree.func("tokens", "CounterTokenDependency.status")
     g2 = CFG(st.node)
     tests = [n for n in g2.live if n.kind == "test"]
-    ok = len(tests) == 1 and src(tests[0].ast) == "self.token.available < self.count"
+    ok = len(tests) == 1 and src(tests[0].ast) in ("self.token.available < self.count", "self._token.available < self.count")
     if ok:
         tb = [m for b, l in tests[0].succ if l is False for m, _ in b.succ]
         ok = any(m.kind == "stmt" and src(m.ast) == "return DependencyStatus.OK" for m in tb)
